@@ -53,9 +53,15 @@ def get_accessor_for_url(url, accessor_options={}):
                 info = json.loads(accessor.fetch_file("info"))
                 if sharded_base.ShardedAccessorBase.info_is_sharded(info):
                     is_sharding = True
-            except (DataAccessError, json.JSONDecodeError):
+            except DataAccessError:
                 # In the event that info does not exist
-                # Or info is malformed
+                # Fallback to default behavior
+                # (an info that exists but cannot be read is an error: writing
+                # un-sharded chunks into a sharded dataset must not happen)
+                if accessor.file_exists("info"):
+                    raise
+            except json.JSONDecodeError:
+                # In the event that info is malformed
                 # Fallback to default behavior
                 ...
 
